@@ -62,6 +62,9 @@ CHECKS["C15"] = ("§5 C15", "Well-formed sys.settrace event streams generated fr
     "choices quick, 4-5 thorough; recursion included) delivered to the real handler with 8 subsets of {method span, line span, method-capture, line-capture}: a monitor "
     "checks every opening is completed exactly once, after it, within its invocation, captures carry that invocation's result, nothing stays pending; two sequential "
     "threads with fresh or reused ident. Streams enumerated by the solver; three recorded findings are excluded by predicate.")
+CHECKS["C14"] = ("§5 C14", "Histories of 2-3 (thorough 3-4) start/shutdown calls on the real Deep / TriggerHandler / LongPoll with recording stand-ins for sys, threading, "
+    "the timer, the poll stub, grpc, plugins and the task handler: hooks installed once per start and restored exactly (untouched under NO_TRACE), one running timer while "
+    "started and none after, delivery drained and every plugin shut down exactly once per shutdown under any failure subset, started flag truthful. Enumerated by the solver.")
 PENDING = {}
 
 def main():
